@@ -3,7 +3,7 @@ import gadgets
 
 
 def run(tier):
-    # thorough: F_97 sampled + every curve point and the two lines through the identity of F_97^2 + all of F_29^2
+    # thorough: F_97 sampled + every curve point of the F_97 instance (all orders) + all of F_29^2
     # (all of F_97^2 is ~10^8 states: measured, does not finish in the budget)
     mc = ["torsion"] if tier == "quick" else ["torsion", "torsion_lines", "torsion_all29"]
     return gadgets.standard("C13", tier, mc=mc, weak=[], scen=["subgroup"])
